@@ -163,6 +163,11 @@ impl Mem {
         );
     }
 
+    /// run the region shrink step of `commit()`; returns whether the layout changed
+    pub fn shrink(&self, force: bool) -> Result<bool, StorageError> {
+        self.mem.verif_try_shrink(force)
+    }
+
     pub fn snapshot(&self) -> Snapshot {
         self.mem.verif_snapshot()
     }
